@@ -29,10 +29,16 @@ package meter
 //@ func (*progressMeter).Start
 //@   requires @assume:A-METER-PERIOD p.period > 0
 //@   modifies fieldmem(progressMeter.format), fieldmem(progressMeter.lastShownCount), fieldmem(progressMeter.spinnerIndex), fieldmem(progressMeter.ticker), fieldmem(progressMeter.count)
+//@   ensures p.count == 0 && p.ticker != nil
+// C18 "the exact number of items processed": Inc counts one, Add counts delta,
+// Start resets, and the final line shows the counter (sequential meaning of the
+// atomic operations: A-STD-ATOMIC).
 //@ func (*progressMeter).Inc
 //@   modifies fieldmem(progressMeter.count)
+//@   ensures p.count == old(p.count) + 1
 //@ func (*progressMeter).Add
 //@   modifies fieldmem(progressMeter.count)
+//@   ensures p.count == old(p.count) + delta
 // Lock discipline (the sequential core of "no line after the final line"):
 // every frame is written inside the critical section in which the ticker was
 // found to be still current; Done() cancels the ticker and writes the final
@@ -43,6 +49,8 @@ package meter
 //@   ghost nUnlock counts Mutex).Unlock
 //@   call 0 fmt.Fprintf assert arg_0 == box(p.w, "io.Writer")
 //@   call 0 fmt.Fprintf assert nLock == nUnlock + 1 && p.ticker == nil
+//@   call 0 fmt.Fprintf assert same(arg_1, p.format) && len(arg_2) == 3 && dyntype(arg_2[0], "int64") && unbox(arg_2[0], "int64") == p.count && dyntype(arg_2[2], "string") && unbox(arg_2[2], "string") == "\n"
+//@   ensures p.count == old(p.count)
 
 //@ func (*progressMeter).Start$1
 //@   requires len(Spinners) > 0 && (*p).spinnerIndex >= 0 && (*p).spinnerIndex < len(Spinners)
@@ -53,6 +61,7 @@ package meter
 //@   loop 0 invariant len(Spinners) > 0 && (*p).spinnerIndex >= 0 && (*p).spinnerIndex < len(Spinners)
 //@   call 0 fmt.Fprintf assert nLock == nUnlock + 1 && (*p).ticker == *ticker
 //@   call 0 fmt.Fprintf assert arg_0 == box((*p).w, "io.Writer")
+//@   call 0 fmt.Fprintf assert same(arg_1, (*p).format) && len(arg_2) == 3 && dyntype(arg_2[0], "int64") && unbox(arg_2[0], "int64") == (*p).count && dyntype(arg_2[2], "string") && len(unbox(arg_2[2], "string")) == 1 && unbox(arg_2[2], "string")[0] == 13
 //@ func (noProgressMeter).Start
 //@   pure
 //@ func (noProgressMeter).Inc
